@@ -1,7 +1,7 @@
 (* C05 — non-ideal models follow the fitted permeance functions they return. *)
 From Coq Require Import Reals Lra List.
-From PV Require Import Num PyBase Model.Component Model.Mixture Model.Permeance Model.Solver Model.Process Model.Fit
-  Lemmas.Composition Lemmas.Thermo Lemmas.Process Lemmas.Membrane Lemmas.Fit.
+From PV Require Import Num PyBase Model.Component Model.Mixture Model.Permeance Model.Solver Model.Process Model.Fit Model.NonIdealCurve
+  Lemmas.Composition Lemmas.Thermo Lemmas.Process Lemmas.Membrane Lemmas.Fit Lemmas.NonIdealCurve.
 Import ListNotations.
 Local Open Scope R_scope.
 
@@ -64,6 +64,15 @@ Proof.
   assert (HP : r_P row' = st_P sti') by (unfold step_permeances in Fp'; destruct iso; injection Fp' as <-; reflexivity).
   rewrite HP, Fx, Fx', FT'. exact (next_permeances_nonideal iso cd f1 f2 FR1 FR2 sti (st_x sti') (st_T sti') (st_P sti') Fnp).
 Qed.
+
+(* the non-ideal diffusion curve: compositions advance by delta, every point after the first uses fit * factor *)
+Theorem C05_curve_points (slv : SolveArgs ROps -> res (R * R)) (f1 f2 : PervFn ROps) (FR1 FR2 T delta prec : R) Tp pp ct k x P pts :
+  nic_loop ROps slv f1 f2 FR1 FR2 T delta prec Tp pp ct k x P = Ok pts ->
+  forall i pt pt', nth_error pts i = Some pt -> nth_error pts (S i) = Some pt' ->
+    cp (fst (fst pt')) = cp (fst (fst pt)) + delta /\
+    pval (fst (snd pt')) = Rmax 0 (pf_call ROps f1 (cp (fst (fst pt'))) T * FR1) /\
+    pval (snd (snd pt')) = Rmax 0 (pf_call ROps f2 (cp (fst (fst pt'))) T * FR2).
+Proof. exact (nic_loop_permeances slv f1 f2 FR1 FR2 T delta prec Tp pp ct k x P pts). Qed.
 
 Print Assumptions C05_step.
 Print Assumptions C05_arrhenius.
